@@ -78,6 +78,8 @@ fn main() {
             "c12_roundtrip" => vm::c12_roundtrip(r),
             "c12_op" => vm::c12_op(r),
             "c04_env" => vm::c04_env(r),
+            "c10_step" => vm::c10_step(r),
+            "c10_random" => vm::c10_random(r),
             "c06_mutations" => c06::c06_mutations(r),
             "c08" => c06::c08(r),
             "c07_header" => c06::c07_header(r),
